@@ -474,7 +474,8 @@ def gen_borehole_config(
     # Determines the number of rows as well as the distance between the rows
     num_rows = int((highest_vert_val - lowest_vert_val) // y_space)
     d = highest_vert_val - lowest_vert_val
-    s = d / num_rows
+    # a lot narrower than one row spacing still holds the row through its lowest vertex
+    s = d / num_rows if num_rows > 0 else d
     row_space = [-1 * s * cos(PI_OVER_2 - rotate), s * sin(PI_OVER_2 - rotate)]
 
     # Establishes the dictionary where the boreholes will be added two as well as establishing a point on the first row
